@@ -69,11 +69,28 @@ def envelope_call(P: Project, fi: FuncInfo, call: ast.Call, depth: int = 0) -> O
     err = inner.get("error")
     if err is not None:
         ev = through(err)
-        if isinstance(ev, ast.Dict):
-            for kk, vv in zip(ev.keys, ev.values):
-                if isinstance(kk, ast.Constant) and kk.value == "code":
-                    out["code"] = through(vv)
-                if isinstance(kk, ast.Constant) and kk.value == "message":
-                    out["message"] = through(vv)
+
+        def members(d: ast.Dict) -> Dict[str, ast.AST]:
+            return {kk.value: vv for kk, vv in zip(d.keys, d.values) if isinstance(kk, ast.Constant) and kk.value in ("code", "message")}
+
+        arms = [ev]
+        if isinstance(ev, ast.Name) and ev.id not in target.params():
+            # a local bound on several arms (`if data is None: error = {…} else: error = {…, "data": data}`), never changed afterwards
+            binds = [s.value for s in walk_local(target.node) if isinstance(s, ast.Assign) and any(isinstance(t, ast.Name) and t.id == ev.id for t in s.targets)]
+            touched = [n for n in walk_local(target.node) if (isinstance(n, ast.Subscript) and isinstance(n.ctx, (ast.Store, ast.Del)) and isinstance(n.value, ast.Name) and n.value.id == ev.id
+                                                             and isinstance(n.slice, ast.Constant) and n.slice.value in ("code", "message"))
+                       or (isinstance(n, ast.Call) and isinstance(n.func, ast.Attribute) and isinstance(n.func.value, ast.Name) and n.func.value.id == ev.id)
+                       or (isinstance(n, ast.AugAssign) and isinstance(n.target, ast.Name) and n.target.id == ev.id)]
+            if binds and not touched:
+                arms = binds
+        while any(isinstance(a, ast.IfExp) for a in arms):
+            # `{…} if data is None else {…, "data": data}`: every arm is a display; a member counts when all arms agree on it
+            arms = [b for a in arms for b in ((a.body, a.orelse) if isinstance(a, ast.IfExp) else (a,))]
+        if arms and all(isinstance(a, ast.Dict) for a in arms):
+            ms = [members(a) for a in arms]
+            for key in ("code", "message"):
+                vals = [m.get(key) for m in ms]
+                if all(v is not None for v in vals) and len({ast.unparse(v) for v in vals}) == 1:
+                    out[key] = through(vals[0])
         out["error"] = ev
     return out
